@@ -24,6 +24,8 @@ LabelB == [ty |-> "g", class |-> <<>>, name |-> "Anon", flavor |-> <<>>]
 \* the flavor is the REST of the line: it may contain colons, blanks, brackets; names may contain blanks and dots
 LabelC == [ty |-> "s", class |-> <<"unix">>, name |-> "Linux", flavor |-> <<"2.6.x (NAT: masquerade)">>]
 LabelD == [ty |-> "g", class |-> <<"win">>, name |-> "Windows NT 4.0", flavor |-> <<"kernel 6.x: generic = any">>]
+\* a horizontal tab inside a value is part of the value (only the ends of a line are trimmed)
+LabelE == [ty |-> "s", class |-> <<>>, name |-> "wget", flavor |-> <<"1.x\t(busybox)">>]
 
 Sections == <<"tcp:request", "tcp:response", "http:request", "http:response", "mtu", "foo">>
 
@@ -31,7 +33,8 @@ SecLine(n)  == [kind |-> "section", name |-> n, raw |-> "[" \o n \o "]"]
 LabelLines  == <<[kind |-> "label", text |-> PrintLabel(LabelA), label |-> LabelA, raw |-> "label = " \o PrintLabel(LabelA)],
                  [kind |-> "label", text |-> PrintLabel(LabelB), label |-> LabelB, raw |-> "label=" \o PrintLabel(LabelB)],
                  [kind |-> "label", text |-> PrintLabel(LabelC), label |-> LabelC, raw |-> "label = " \o PrintLabel(LabelC)],
-                 [kind |-> "label", text |-> PrintLabel(LabelD), label |-> LabelD, raw |-> "label =" \o PrintLabel(LabelD)]>>
+                 [kind |-> "label", text |-> PrintLabel(LabelD), label |-> LabelD, raw |-> "label =" \o PrintLabel(LabelD)],
+                 [kind |-> "label", text |-> PrintLabel(LabelE), label |-> LabelE, raw |-> "label = " \o PrintLabel(LabelE)]>>
 SigLines    == <<[kind |-> "sig", ty |-> "tcp", text |-> PrintTcpSig(T1), n |-> 0, raw |-> "sig   = " \o PrintTcpSig(T1)],
                  [kind |-> "sig", ty |-> "tcp", text |-> PrintTcpSig(T2), n |-> 0, raw |-> "sig=" \o PrintTcpSig(T2)],
                  [kind |-> "sig", ty |-> "http", text |-> PrintHttpSig(X1), n |-> 0, raw |-> "sig = " \o PrintHttpSig(X1)],
